@@ -25,11 +25,12 @@ static std::string tmp_path(const char * tag) { return g_dir + "/" + tag + "." +
 
 // write a sequence through the File API; ownership of clones passes to the library. returns error text or ""
 static std::string write_file(const std::string & path, const sg::Seq & s, const sg::Config & c, File * keep = nullptr,
-                              void (*prep)(File &, void *) = nullptr, void * arg = nullptr, int pause_ms = 0, bool level_after_open = false) {
+                              void (*prep)(File &, void *) = nullptr, void * arg = nullptr, int pause_ms = 0, bool level_after_open = false, bool prep_late = false) {
     File local; File & f = keep ? *keep : local;
     f.compressionLevel = level_after_open ? (c.level ? 0 : 6) : c.level; f.writeRestorePoints = c.trailer; f.setDefaultLogContainerSize(c.C);
     if (c.tiny_limits) f.verifSetLimits(c.Q, c.B);
-    if (prep) prep(f, arg);
+    if (prep && !prep_late) prep(f, arg);
+    if (prep_late) f.writeRestorePoints = !c.trailer;
     f.open(path.c_str(), std::ios_base::out);
     if (!f.is_open()) return "open(out) failed";
     if (level_after_open) { struct timespec ts = {0, 3000000}; nanosleep(&ts, nullptr); f.compressionLevel = c.level; }    // the level is configured after open(), before anything is written
@@ -38,6 +39,7 @@ static std::string write_file(const std::string & path, const sg::Seq & s, const
         if (pause_ms && i + 1 == s.objs.size() / 2) { struct timespec ts = {0, pause_ms * 1000000L / 2}; nanosleep(&ts, nullptr); }
     }
     if (pause_ms) { struct timespec ts = {0, pause_ms * 1000000L}; nanosleep(&ts, nullptr); }     // the application idles before close()
+    if (prep && prep_late) { prep(f, arg); f.writeRestorePoints = c.trailer; }      // caller-supplied header fields (last object time ...) and the trailer switch set at the end of the session
     f.close();
     if (f.is_open()) return "still open after close";
     return "";
@@ -155,7 +157,7 @@ static bool gen_one(uint64_t seed, long idx, const std::string & dir, long K) {
         uint64_t w_usize, w_count, w_fsize, w_rpo; uint64_t w_cur_usize; uint32_t w_cur_count;
         {
             File f;
-            std::string e = write_file(base + ".blf", s, c, &f, set_header, &h, 0, idx % 5 == 2);
+            std::string e = write_file(base + ".blf", s, c, &f, set_header, &h, 0, idx % 5 == 2, idx % 3 == 1);
             if (!e.empty()) { hc::viol("write-session:" + e, ctx); return false; }
             w_usize = f.fileStatistics.uncompressedFileSize; w_count = f.fileStatistics.objectCount; w_fsize = f.fileStatistics.fileSize; w_rpo = f.fileStatistics.restorePointsOffset;
             w_cur_usize = f.currentUncompressedFileSize; w_cur_count = f.currentObjectCount;
